@@ -67,6 +67,7 @@ type LockState struct {
 	HDepth int8
 	S, M   int8 // store / map lock depth
 	SW, MW bool // held in write mode
+	Si, Mi [3]int8 // depth per instance: 0 cache store, 1 pending store, 2 unknown
 	T      int8 // any other package mutex (e.g. a schema-table mutex)
 }
 
@@ -137,12 +138,14 @@ type Event struct {
 	VFact  Fact   // EvStoreResult: fact of the stored value
 	// lock events
 	LockClass string // "H","S","M","T"
+	LockInst  int    // for S / M: 0 cache store, 1 pending store, 2 unknown
 	LockOp    extKind
 	// access events
 	Struct *types.Named
 	Field  *types.Var
 	Write  bool
 	BaseNil tri // nil-ness of the pointer the field was reached through
+	VNil    tri // nil-ness of the stored value (writes)
 }
 
 type Listener interface {
@@ -410,6 +413,22 @@ func (x *Explorer) liveOf(fn *ssa.Function) *liveInfo {
 			}
 		}
 	}
+	// operands of a defer are used when the deferred call runs (at rundefers): keep them alive everywhere
+	for _, b := range fn.Blocks {
+		for _, in := range b.Instrs {
+			if df, ok := in.(*ssa.Defer); ok {
+				var ops []*ssa.Value
+				ops = df.Operands(ops)
+				for _, op := range ops {
+					if *op != nil {
+						for _, bb := range fn.Blocks {
+							mark(*op, bb)
+						}
+					}
+				}
+			}
+		}
+	}
 	if fn.Recover != nil {
 		// named results loaded in the recover block: keep their allocs alive everywhere
 		for _, in := range fn.Recover.Instrs {
@@ -575,7 +594,8 @@ func (x *Explorer) hash(st *State) uint64 {
 	}
 	buf = putInt(buf, -4, int(st.User))
 	buf = putInt(buf, -2, int(st.must[0]), int(st.must[1]), int(st.may[0]), int(st.may[1]), int(st.iter[0]), int(st.iter[1]),
-		int(lk.H), int(lk.HDepth), int(lk.S), int(lk.M), b2i(lk.SW), b2i(lk.MW), int(lk.T))
+		int(lk.H), int(lk.HDepth), int(lk.S), int(lk.M), b2i(lk.SW), b2i(lk.MW), int(lk.T),
+		int(lk.Si[0]), int(lk.Si[1]), int(lk.Si[2]), int(lk.Mi[0]), int(lk.Mi[1]), int(lk.Mi[2]))
 	type ent struct {
 		a, b, c int
 		s       Sym
